@@ -457,11 +457,20 @@ func c13Logger(out *evid.Out, f *evid.Flags, clock *int64) {
 			case 8:
 				ev = zerolog.ErrorLevel
 				lgr.Err(errTest).Msg("m")
+			case 9:
+				// Logger.Panic(): sampled like any other event; the call panics with the message whether or not the line is written
+				ev = zerolog.PanicLevel
+				func() {
+					defer func() {
+						// an event that is not written panics at once, with the empty message
+						if x := recover(); x != "m" && x != "" {
+							out.Violate("panic-entry", fmt.Sprintf("Logger.Panic().Msg(\"m\") ended with recover() = %v", x), map[string]interface{}{"check": "c13", "run": run})
+						}
+					}()
+					lgr.Panic().Msg("m")
+				}()
 			default:
-				ev = zerolog.Level(r.Intn(9) - 2) // -2 .. 6: below Trace, every named level up to NoLevel
-				if ev == 4 || ev == 5 {
-					ev = zerolog.InfoLevel // Fatal / Panic would end the process / panic
-				}
+				ev = zerolog.Level(r.Intn(9) - 2) // -2 .. 6: below Trace, every named level up to NoLevel (WithLevel neither panics nor exits)
 				lgr.WithLevel(ev).Msg("m")
 			}
 			want := false
